@@ -37,7 +37,7 @@ PROP = {
 CLAIM = {
     "engine": "rapid-stateful+synctest",
     "technique": "stateful property-based testing (rapid) of generated publish / verdict / handler-swap histories on a real in-memory daisy chain (synctest quiescence) and on a real libp2p line A-B-C on loopback, judged against the log of handler invocations; plus exhaustive table sweeps of the topic validator (256 feedback values x 3 kinds x {handler, nil}) and of the shipped feedback mappers (2 mappers x 3 methods x 256 result values) and generated undecodable payloads",
-    "text": "Four checks. (0) Mappers: both shipped feedback mappers (the handler a node plugs into its connection) x 3 methods x every result value, against their doc comments: a result that reports an invalid or unverified message is never answered Accepted, a verified new message always is, an already known one is Accepted by AcceptAllValid and not by DropDuplicate, and prevote / precommit proofs are mapped alike. (1) Table: the pubsub validator the connection registers is called directly for every feedback byte x message kind x {recording handler, ignoreMessage, constructor(nil)} and for thousands of malformed payloads; it may return Accept only if the matching handler method was invoked once with exactly the decoded message and returned Accepted; values outside the Feedback range must map to Ignore. (2) Daisy chain: lines of 3-5 real DaisyChainConnections inside a synctest bubble; generated op lists (publish from any node, per-node verdict bytes, SetConsensusHandler nil/table/constant with messages in flight, Disconnect, quiescence points); a handler may see message m only if every node between it and the publisher returned Accepted for m earlier in the invocation log. (3) libp2p: real hosts A-B-C (A, C gated to B only), generated messages / verdicts / undecodable payloads / handler swaps while A floods; a message seen by C's pubsub or accepted by B's pubsub must have an Accepted record at B. Before B gets its first handler the set-up publishes messages while B has only joined the topic (mesh formed, observed through tracer events) and demands that none of them reaches C. Exploration, not proof: schedules inside one step and the real-time replacement window are sampled.",
+    "text": "Four checks. (0) Mappers: both shipped feedback mappers (the handler a node plugs into its connection) x 3 methods x every result value, against their doc comments: a result that reports an invalid or unverified message is never answered Accepted, a verified new message always is, an already known one is Accepted by AcceptAllValid and not by DropDuplicate, and prevote / precommit proofs are mapped alike. (1) Table: the pubsub validator the connection registers is called directly for every feedback byte x message kind x {recording handler, ignoreMessage, constructor(nil)} and for thousands of malformed payloads; it may return Accept only if the matching handler method was invoked once with exactly the decoded message and returned Accepted; values outside the Feedback range must map to Ignore. (2) Daisy chain: lines of 3-5 real DaisyChainConnections inside a synctest bubble; generated op lists (publish from any node, per-node verdict bytes, SetConsensusHandler nil/table/constant with messages in flight, Disconnect, quiescence points); a handler may see message m only if every node between it and the publisher returned Accepted for m earlier in the invocation log. (3) libp2p: real hosts A-B-C (A, C gated to B only), generated messages / verdicts / undecodable payloads / handler swaps while A floods; a message seen by C's pubsub or accepted by B's pubsub must have an Accepted record at B. Before B gets its first handler the set-up publishes messages while B has only joined the topic (mesh formed, observed through tracer events) and demands that none of them reaches C; after the generated cases it installs a reject-all handler at B, cancels the context of B's connection while B's host and pubsub keep running, and demands that nothing A publishes afterwards reaches C. Exploration, not proof: schedules inside one step and the real-time replacement window are sampled.",
     "design_ref": "DESIGN.md section 4 C20",
     "note": "Known finding C20-F1 (daisy chain passes messages through a node without handler) is excluded by construction on the daisy chain: relay nodes always have a handler there. The libp2p replacement window is reported as a violation until fixes/C20-libp2p-handler-swap-window.diff is applied. The startup gap between Subscribe and the first RegisterTopicValidator in NewConnection is not exercised.",
 }
